@@ -36,15 +36,21 @@ def run(ctx):
         nid = reps[0].id
     else:
         # resampling written as an index / mask selection: x = x[sel] under equal_weight
+        def _sel_of(v, tgt):
+            if isinstance(v, ast.Subscript) and isinstance(v.value, ast.Name) and \
+                    v.value.id == tgt:
+                return v.slice
+            if isinstance(v, ast.Call) and dotted(v.func) == 'np.take' and len(v.args) >= 2 and \
+                    isinstance(v.args[0], ast.Name) and v.args[0].id == tgt:
+                return v.args[1]
+            return None
         sels = [n for n in cfg.nodes if n.kind == 'stmt' and isinstance(n.ast, ast.Assign) and
-                isinstance(n.ast.value, ast.Subscript) and
                 isinstance(n.ast.targets[0], ast.Name) and
-                isinstance(n.ast.value.value, ast.Name) and
-                n.ast.value.value.id == n.ast.targets[0].id and
+                _sel_of(n.ast.value, n.ast.targets[0].id) is not None and
                 cfg.has_fact(n.id, 'equal_weight', True)]
         ctx.require(sels, 'Sampler.posterior: resampling of the view not found')
         reps = sels
-        sel = sels[0].ast.value.slice
+        sel = _sel_of(sels[0].ast.value, sels[0].ast.targets[0].id)
         nid = sels[0].id
     wname = None
     for r_ in walk_no_nested(f.node):
